@@ -44,6 +44,10 @@ pub const TYPES: [&str; 12] = ["Arithmetic<f64>", "Arithmetic<f32>", "Geometric<
 
 pub trait Acc: Sized + Clone + std::fmt::Debug + Send + Sync {
     fn new() -> Self;
+    /// the other way of producing an empty state (Default where `new` is used and the reverse)
+    fn new_alt() -> Self {
+        Self::new()
+    }
     fn append(&mut self, it: &Item) -> Result<(), String>;
     fn extend(&mut self, its: &[Item]) -> Result<(), String>;
     fn from_items(its: &[Item]) -> Result<Self, String>;
@@ -138,6 +142,9 @@ macro_rules! impl_arith_like {
         impl<F: Fl> Acc for $wrap<F> {
             fn new() -> Self {
                 $wrap($inner::<F>::new())
+            }
+            fn new_alt() -> Self {
+                $wrap($inner::<F>::default())
             }
             fn append(&mut self, it: &Item) -> Result<(), String> {
                 StatisticsOps::append(&mut self.0, F::from64(it.x.0)).map_err(es)
@@ -389,6 +396,9 @@ impl Acc for AProp {
     fn new() -> Self {
         AProp(proportion::Stats::default())
     }
+    fn new_alt() -> Self {
+        AProp(proportion::Stats::new(0, 0))
+    }
     fn append(&mut self, it: &Item) -> Result<(), String> {
         if it.flag {
             self.0.add_success()
@@ -451,6 +461,9 @@ pub struct AQuant(pub quantile::Stats);
 impl Acc for AQuant {
     fn new() -> Self {
         AQuant(quantile::Stats::default())
+    }
+    fn new_alt() -> Self {
+        AQuant(quantile::Stats::new(0))
     }
     fn append(&mut self, _it: &Item) -> Result<(), String> {
         self.0 += quantile::Stats::new(1);
@@ -517,7 +530,7 @@ struct Slot<S> {
 
 fn interpret<S: Acc>(p: &Program, obs: &mut Obs) -> PResult {
     let ty = p.ty.as_str();
-    let mut slots: Vec<Slot<S>> = (0..4).map(|_| Slot { s: S::new(), model: vec![], depth: 0 }).collect();
+    let mut slots: Vec<Slot<S>> = (0..4).map(|i| Slot { s: if i % 2 == 0 { S::new() } else { S::new_alt() }, model: vec![], depth: 0 }).collect();
     let mut merges_nonempty = 0;
     let mut merges_empty = 0;
     let mut queries_between = 0;
@@ -529,7 +542,7 @@ fn interpret<S: Acc>(p: &Program, obs: &mut Obs) -> PResult {
         match op {
             Op::New { dst } => {
                 let d = *dst as usize % 4;
-                slots[d] = Slot { s: S::new(), model: vec![], depth: 0 };
+                slots[d] = Slot { s: if step % 2 == 0 { S::new() } else { S::new_alt() }, model: vec![], depth: 0 };
                 touched = d;
             }
             Op::Append { dst, it } => {
@@ -700,8 +713,21 @@ fn item(ty_idx: usize) -> impl Strategy<Value = Item> {
     (0u32..4, -(1i32 << 16)..=(1i32 << 16), -(1i32 << 16)..=(1i32 << 16), any::<bool>()).prop_map(move |(kc, a, b, flag)| {
         let kappa: f64 = [0.0, 1.0, 8.0, 100.0][kc as usize];
         let kappa = if f32_ { kappa.min(8.0) } else { kappa };
+        // a fifth of the real-valued items are small integers of either sign (powers of two for the positive types): partial
+        // sums then tie exactly, also with opposite signs, which generic reals never do
+        let small = flag && (a & 3) == 0;
         let mk = |r: i32| {
-            let v = if positive { (2f64).powf(r as f64 / 65536.0 * 3.0) * (1.0 + kappa) } else { kappa + r as f64 / 65536.0 };
+            let v = if small {
+                if positive {
+                    crate::fl::pow2((r >> 2).rem_euclid(5) - 2)
+                } else {
+                    ((r >> 2).rem_euclid(7) - 3) as f64
+                }
+            } else if positive {
+                (2f64).powf(r as f64 / 65536.0 * 3.0) * (1.0 + kappa)
+            } else {
+                kappa + r as f64 / 65536.0
+            };
             if f32_ {
                 (v as f32) as f64
             } else {
@@ -724,8 +750,33 @@ fn op(ty_idx: usize) -> impl Strategy<Value = Op> {
         3 => (s(), crate::gen::conf(), 1u32..1000).prop_map(|(slot, conf, q)| Op::Query { slot, conf, q: X(q as f64 / 1000.0) }),
     ]
 }
+/// scale every observation of an item by 2^e (exact)
+fn scale_item(it: &Item, e: i32) -> Item {
+    let s = crate::fl::pow2(e);
+    Item { x: X(it.x.0 * s), y: X(it.y.0 * s), flag: it.flag }
+}
+fn scale_ops(ops: Vec<Op>, e: i32) -> Vec<Op> {
+    if e == 0 {
+        return ops;
+    }
+    ops.into_iter()
+        .map(|o| match o {
+            Op::Append { dst, it } => Op::Append { dst, it: scale_item(&it, e) },
+            Op::Extend { dst, its } => Op::Extend { dst, its: its.iter().map(|i| scale_item(i, e)).collect() },
+            Op::FromIter { dst, its } => Op::FromIter { dst, its: its.iter().map(|i| scale_item(i, e)).collect() },
+            o => o,
+        })
+        .collect()
+}
+/// whole-program magnitude: 60 % unit scale, 40 % a power of two down to 2^-45 / up to 2^45 (f32: 2^±14), so that
+/// registers (sums, sums of squares) are far below / above 1 while the data stay well inside the normal range
+fn program_scale(t: usize) -> impl Strategy<Value = i32> {
+    let f32_ = matches!(t, 1 | 3 | 5 | 10 | 11);
+    let lim = if f32_ { 14 } else { 45 };
+    prop_oneof![6 => Just(0i32), 3 => -lim..=-1i32, 1 => 1..=lim]
+}
 pub fn program(max_ops: usize) -> impl Strategy<Value = Program> {
-    (0usize..TYPES.len()).prop_flat_map(move |t| prop::collection::vec(op(t), 0..=max_ops).prop_map(move |ops| Program { ty: TYPES[t].to_string(), ops }))
+    (0usize..TYPES.len()).prop_flat_map(move |t| (prop::collection::vec(op(t), 0..=max_ops), program_scale(t)).prop_map(move |(ops, e)| Program { ty: TYPES[t].to_string(), ops: scale_ops(ops, e) }))
 }
 
 // all binary merge trees over <= 6 chunks ----------------------------------------------------------------
@@ -865,7 +916,7 @@ pub fn par_case(c: &ParCase, obs: &mut Obs) -> PResult {
 
 pub fn run(run: &mut Run) {
     run.technique = "model-based (stateful) property testing: proptest-generated programs over a register file interpreted on the real types and on a multiset model with exact statistics; exhaustive enumeration of all binary merge trees over <= 6 chunks; real rayon / thread reductions".into();
-    run.rule = "programs of up to 40 ops over {New, Append, Extend, FromIter, Copy, Add, AddAssign, Query} on 4 slots for 12 state types; after every step the count equals the model's, at every query mean / variance / CI are within the rounding tolerance of the exact statistics of the model multiset (proportion / quantile states: equal to the component-wise sums, ci bit-identical), queries leave every Debug image unchanged and repeat identically, an empty operand is neutral; all 65 merge-tree shapes over 1..6 chunks x 3 chunkings (with empty chunks) x both operand orders; rayon and thread-scope reductions with 1, 2, 7, 16 threads; non-trivial = a program with a merge of two multi-element states, a merge with an empty operand, or a query between updates".into();
+    run.rule = "programs of up to 40 ops (data at unit scale or scaled as a whole by a power of two down to 2^-45 / up to 2^45) over {New, Append, Extend, FromIter, Copy, Add, AddAssign, Query} on 4 slots for 12 state types; after every step the count equals the model's, at every query mean / variance / CI are within the rounding tolerance of the exact statistics of the model multiset (proportion / quantile states: equal to the component-wise sums, ci bit-identical), queries leave every Debug image unchanged and repeat identically, an empty operand is neutral; all 65 merge-tree shapes over 1..6 chunks x 3 chunkings (with empty chunks) x both operand orders; rayon and thread-scope reductions with 1, 2, 7, 16 threads; non-trivial = a program with a merge of two multi-element states, a merge with an empty operand, or a query between updates".into();
     crate::meanref::selftest_into(run);
     let (cases, shards, max_ops) = match run.tier {
         crate::engine::Tier::Quick => (30_000u32, 32usize, 40usize),
@@ -880,7 +931,19 @@ pub fn run(run: &mut Run) {
     let mut jobs: Vec<TreeCase> = vec![];
     for (ti, ty) in tree_types.iter().enumerate() {
         let ty_idx = TYPES.iter().position(|t| t == ty).unwrap();
-        let items: Vec<Item> = crate::engine::draw(&prop::collection::vec(item(ty_idx), 40..=40), run.seed_for("tree_items", ti as u64), 1).pop().unwrap();
+        let items0: Vec<Item> = crate::engine::draw(&prop::collection::vec(item(ty_idx), 40..=40), run.seed_for("tree_items", ti as u64), 1).pop().unwrap();
+        // at unit scale and with every register far below one unit of rounding of 1 (2^-34, f32: 2^-14)
+        let tiny = if ty.contains("f32") { -14 } else { -34 };
+        // third variant (escale = 1): 1, -1, 2, -2, 3, ... — the partial sums of neighbouring chunks are exact negatives
+        for escale in [0, tiny, 1] {
+        if escale != 0 && (!ty.contains("<f") || ((ty.starts_with("Geometric") || ty.starts_with("Harmonic")) && escale == 1)) {
+            continue;
+        }
+        let items: Vec<Item> = if escale == 1 {
+            (0..40).map(|i| Item { x: X(((i / 2 + 1) as f64) * if i % 2 == 0 { 1.0 } else { -1.0 }), y: X(0.0), flag: i % 3 == 0 }).collect()
+        } else {
+            items0.iter().map(|i| scale_item(i, escale)).collect()
+        };
         for m in 1..=6usize {
             for chunking in 0..3 {
                 // sizes: equal, ramp, with empty chunks
@@ -910,12 +973,13 @@ pub fn run(run: &mut Run) {
                 }
             }
         }
+        }
     }
     let jobs_ref = &jobs;
     run.par(jobs.len(), |j, obs| {
         crate::engine::case_on(obs, "tree", &jobs_ref[j], tree_case);
     });
-    run.exhaustive_parts.push("all binary merge-tree shapes over 1..6 chunks (1+1+2+5+14+42 = 65) x 3 chunkings x 2 operand orders x 10 state types".into());
+    run.exhaustive_parts.push("all binary merge-tree shapes over 1..6 chunks (1+1+2+5+14+42 = 65) x 3 chunkings x 2 operand orders x 10 state types (floating-point types at unit scale, at 2^-34 / 2^-14, and on the alternating integers 1, -1, 2, -2, … whose chunk sums cancel exactly)".into());
     // parallel reductions
     let n_par = run.tier.pick(20_000usize, 300_000);
     let mut pj = vec![];
